@@ -596,6 +596,17 @@ impl<'r, 'c, 's, W: Write> DatumSerializer<'r, 'c, 's, W> {
 						let start = bytes.len().checked_sub(fixed.size).ok_or_else(|| {
 							SerError::custom("Decimals of size larger than 16 are not supported")
 						})?;
+						// The bytes we drop must be pure sign extension of what we keep
+						let sign_byte: u8 = if n < 0 { 0xFF } else { 0x00 };
+						let fits = bytes[..start].iter().all(|&b| b == sign_byte)
+							&& bytes
+								.get(start)
+								.map_or(n == 0, |&b| (b & 0x80 != 0) == (n < 0));
+						if !fits {
+							return Err(SerError::new(
+								"Integer to be encoded as decimal does not fit in `fixed` field size",
+							));
+						}
 						&bytes[start..]
 					}
 				};
